@@ -420,6 +420,7 @@ func c02Case(c *mon.Case, rw bool) {
 	}()
 	name := func(a *c02Actor) string { return fmt.Sprint("a", a.id) }
 
+	preCancelNext := false
 	startLock := func(a *c02Actor, write bool) {
 		a.write = write
 		if a.id%2 == 1 {
@@ -434,6 +435,11 @@ func c02Case(c *mon.Case, rw bool) {
 		a.gotErr.Store(nil)
 		a.startedAt = c.Rec(name(a), fmt.Sprint("start Lock write=", write), nil)
 		ctx := a.ctx
+		if preCancelNext {
+			preCancelNext = false
+			a.cancelled = true
+			a.cancel()
+		}
 		a.cmds <- func() {
 			rel, err := l.lock(ctx, write)
 			if err != nil {
@@ -489,6 +495,11 @@ func c02Case(c *mon.Case, rw bool) {
 	}
 
 	var actionLog []string
+	type tryRead struct {
+		a     *c02Actor
+		stamp int64
+	}
+	var tryReads []tryRead
 	settle := func() bool {
 		if !mon.Quiesce(10 * time.Second) {
 			c.Inconclusive("no quiescence")
@@ -526,6 +537,19 @@ func c02Case(c *mon.Case, rw bool) {
 				a.blockedSeenAt = 0
 			}
 		}
+		// a successful TryLock(read) that was called after a writer had been seen blocked, while that writer is
+		// still waiting (it cannot have acquired: the reader still holds) and was not cancelled
+		for _, tr := range tryReads {
+			if !tr.a.holding {
+				continue
+			}
+			for _, wtr := range actors {
+				if wtr.write && wtr.pending.Load() && !wtr.cancelled && wtr.blockedSeenAt != 0 && wtr.blockedSeenAt < tr.stamp {
+					c.Violate("waiters", "reader-granted-while-writer-waits", "TryLock(read) by a%d (at %d) succeeded after writer a%d had been seen blocked (quiescent at %d); the writer is still waiting and was not cancelled. Actions: %v", tr.a.id, tr.stamp, wtr.id, wtr.blockedSeenAt, actionLog)
+				}
+			}
+		}
+		tryReads = tryReads[:0]
 		// every call still pending at this quiescent point is blocked
 		now := c.Stamp()
 		for _, a := range actors {
@@ -632,6 +656,15 @@ func c02Case(c *mon.Case, rw bool) {
 			case 0:
 				a := id[r.IntN(len(id))]
 				write := r.IntN(3) == 0
+				if r.IntN(8) == 0 {
+					// a Lock whose context is already cancelled: it may succeed or fail, but must leave no trace if it fails
+					actionLog = append(actionLog, fmt.Sprintf("a%d.Lock(%s, already cancelled ctx)", a.id, mode(l, write)))
+					preCancelNext = true
+					startLock(a, write)
+					c.Count("precancelled_lock_calls", 1)
+					c.Count("cancelled_waiters", 1)
+					break
+				}
 				actionLog = append(actionLog, fmt.Sprintf("a%d.Lock(%s)", a.id, mode(l, write)))
 				startLock(a, write)
 			case 1:
@@ -644,7 +677,10 @@ func c02Case(c *mon.Case, rw bool) {
 				a.cmds <- func() { rel, ok = l.tryLock(write); close(done) }
 				<-done
 				actionLog = append(actionLog, fmt.Sprintf("a%d.TryLock(%s)=%v", a.id, mode(l, write), ok))
-				c.Rec(name(a), fmt.Sprint("TryLock write=", write, " -> ", ok), nil)
+				tryStamp := c.Rec(name(a), fmt.Sprint("TryLock write=", write, " -> ", ok), nil)
+				if ok && rw && !write {
+					tryReads = append(tryReads, tryRead{a, tryStamp})
+				}
 				if ok {
 					a.rel, a.holding = rel, true
 				} else if rel != nil {
